@@ -908,7 +908,8 @@ class Run:
         obs = err_kind(status, msg)
         self.count('backup:refused-same-second-same-kind:' + obs)
         self.trace.append('backup %s (same second) -> %s' % (flags or '-', obs))
-        self.emit('backup %s %s' % (d14(e.t), flags or '-'), obs)
+        # (not refused after all: what it wrote is compared through the listing that follows)
+        self.emit('backup %s %s' % (d14(e.t), flags or '-'), obs if status != 0 else None)
         ls, _other = listing(self.repo)
         self.emit('ls', ls)
         if status == 0:
@@ -1021,6 +1022,11 @@ class Run:
                             os.utime(os.path.join(outdir, n), (START + 10 ** 6, START + 10 ** 6))
         if deep and (pre == 2 or keep):
             deep = 'rw'
+        # what lies at the output before the run (a failed recovery leaves the index as it was)
+        pre_code = int(bool(pre))
+        if keep:
+            pre_code = 2 + (0 if os.path.exists(self.out + '.index') else 1) + (
+                0 if os.path.exists(self.out) else 2)
         argv = self.argv('-R', ['-w'] if w else [], D=date or None, o=self.out if mode == 'o' else None)
         status, out, msg = run_main(argv)
         kind = err_kind(status, msg)
@@ -1051,7 +1057,7 @@ class Run:
             extra = sorted(set(os.listdir(outdir)) - allowed)
             if extra and not live:
                 self.violation('C18:recover-stray-output', 'recover left %r' % extra)
-        self.emit('recover %s %d %s %d' % (bound, int(w), mode, 2 if keep else int(bool(pre))), obs)
+        self.emit('recover %s %d %s %d' % (bound, int(w), mode, pre_code), obs)
         if not judge:
             return obs
         desc = 'recover -D %s%s%s' % (date or '(now)', ' -w' if w else '', ' -o' if mode == 'o' else '')
@@ -1683,10 +1689,14 @@ def same(op, real, model):
     exception kinds are internal), artefacts (bytes, .part, index) exactly"""
     if op.startswith('verify') or op.startswith('recover'):
         model = re.sub(r'^err:\S+', 'err', model)
-        if op.startswith('recover') and op.endswith(' 2'):
-            # the output of an earlier recovery was in place: "left as it was" is that, not the stale stub
+        if op.startswith('recover') and op[-2:] in (' 2', ' 3', ' 4', ' 5'):
+            # the output of an earlier recovery was in place (the op says which of file / index): "left
+            # as it was" is that, not the stale stub the model starts from
             model = model.replace('idx=stale', 'idx=new')
             real = real.replace('idx=stale', 'idx=new')
+            if real.startswith('err'):
+                model = re.sub(r'file=(?!none)\S+', 'file=kept', model)
+                real = re.sub(r'file=(?!none)\S+', 'file=kept', real)
         model = model.replace('idx=bad', 'idx=new')
         real = real.replace('idx=bad', 'idx=new')
         if 'idx=new' in real:
